@@ -214,6 +214,19 @@ def section_herm():
                         check_problem("herm", pb, maxtot, mask_dict=md, label=f"layout{li}/{fmt}/p{nparam}/mask{b}")
                 if nb > 1:
                     check_problem("herm", pb, maxtot, fully=tuple(range(nb)), label=f"layout{li}/{fmt}/p{nparam}/fullyall")
+    # masks that eliminate nothing (explicit all-False masks, as dict or bare array): the unique least-action answer is U = 1, H_tilde = H
+    for E, sub in (([0.0, 1.0, 2.5], [0, 0, 0]), ([0.0, 1.0, 3.0, 4.5], [0, 0, 1, 1])):
+        pb = Problem(E, sub, seed=77)
+        for b in range(pb.nb):
+            m = len(pb.idx[b])
+            check_problem("herm", pb, 3, mask_dict={b: np.zeros((m, m), dtype=bool)}, label=f"empty-mask/block{b}/nb{pb.nb}")
+        if pb.nb == 1:
+            global cases
+            cases += 1
+            Ht, U, Ud = block_diagonalize(pb.hamiltonian(), subspace_indices=pb.sub, fully_diagonalize=np.zeros((pb.n, pb.n), dtype=bool))
+            for o in range(1, 4):
+                if np.abs(pb.assemble(U, (o,))).max() > 1e-9 or np.abs(pb.assemble(Ht, (o,)) - pb.H_order((o,))).max() > 1e-9:
+                    fail("herm", "single block with a mask that eliminates nothing: U != 1 or H_tilde != H", order=o)
     # chain of near-degeneracies with a large tolerance (kept pattern not transitive)
     pb = Problem([0.0, 0.1, 0.2, 1.0, 2.0], [0, 0, 0, 0, 0], seed=3)
     check_problem("herm", pb, 3, fully=(0,), atol=0.15, label="chain/atol0.15")
